@@ -28,6 +28,41 @@ REPO = os.environ.get("VERIF_REPO", "/repo")
 REPO_SRC = os.path.join(REPO, "hugr-py", "src")
 
 
+class CaseTimeout(BaseException):
+    """A single case exceeded its wall-clock allowance: inconclusive, never a verdict."""
+
+
+CASE_TIMEOUT_S = int(os.environ.get("VERIF_CASE_TIMEOUT", "60"))
+
+
+def _alarm_handler(signum, frame):
+    raise CaseTimeout()
+
+
+def limit_resources():
+    """Contain runaway cases (e.g. a mutated library looping or allocating without bound)."""
+    import resource
+    import signal
+
+    try:
+        lim = int(os.environ.get("VERIF_MEM_LIMIT_GB", "8")) * 1024**3
+        resource.setrlimit(resource.RLIMIT_AS, (lim, lim))
+    except (ValueError, OSError):
+        pass
+    signal.signal(signal.SIGALRM, _alarm_handler)
+
+
+def guarded(fn, *a):
+    """Run fn(*a) under the per-case alarm."""
+    import signal
+
+    signal.alarm(CASE_TIMEOUT_S)
+    try:
+        return fn(*a)
+    finally:
+        signal.alarm(0)
+
+
 class InvalidCase(Exception):
     """The case is not executable (only arises while shrinking / bad replay)."""
 
@@ -114,12 +149,16 @@ class Collector:
         self.harness_errors: list[str] = []
         self.budget_stopped: dict[str, int] = {}
         self.exhaustive: dict[str, bool] = {}
+        self.timeouts = 0
 
     def run_case(self, sub: Sub, case: Any) -> list[Fail]:
         try:
-            fails = sub.check(case)
+            fails = guarded(sub.check, case)
         except InvalidCase:
             self.invalid += 1
+            return []
+        except (CaseTimeout, MemoryError):
+            self.timeouts += 1
             return []
         except HarnessError as e:
             self.harness_errors.append(f"{sub.name}: {e}")
@@ -183,6 +222,7 @@ class Collector:
             "harness_errors": self.harness_errors,
             "budget_stopped": self.budget_stopped,
             "exhaustive": self.exhaustive,
+            "timeouts": self.timeouts,
         }
 
     def merge(self, d: dict) -> None:
@@ -206,6 +246,7 @@ class Collector:
                 if f["size"] < cur["size"]:
                     cur.update(size=f["size"], sub=f["sub"], case=f["case"], msg=f["msg"])
         self.invalid += d["invalid"]
+        self.timeouts += d.get("timeouts", 0)
         self.harness_errors += d["harness_errors"]
         for k, v in d["budget_stopped"].items():
             self.budget_stopped[k] = self.budget_stopped.get(k, 0) + v
@@ -313,8 +354,10 @@ def shrink_case(sub: Sub, prop: str, case: Any, bucket: str, budget_s: float) ->
 
     def still(c) -> bool:
         try:
-            fs = sub.check(c)
+            fs = guarded(sub.check, c)
         except InvalidCase:
+            return False
+        except (CaseTimeout, MemoryError):
             return False
         except Exception as e:  # noqa: BLE001
             entered, locus = exc_locus(e)
